@@ -118,7 +118,7 @@ func overlayFor(repo, verif string, dirs []string, genDir string) (map[string]st
 		}
 		repl := strings.NewReplacer("*os.File", "*verifFile", "os.OpenFile(", "verifOpenFile(", "os.ReadFile(", "verifReadFile(",
 			"os.Remove(", "verifRemove(", "os.MkdirAll(", "verifMkdirAll(", "os.IsNotExist(", "verifIsNotExist(",
-			"os.O_RDWR", "verifO_RDWR", "os.O_CREATE", "verifO_CREATE", "os.ModePerm", "verifModePerm", "os.FileMode", "verifFileMode",
+			"filepath.Glob(", "verifGlob(", "os.O_RDWR", "verifO_RDWR", "os.O_CREATE", "verifO_CREATE", "os.ModePerm", "verifModePerm", "os.FileMode", "verifFileMode",
 			"\t\"os\"\n", "\t_ \"os\"\n")
 		for _, fn := range []string{"file_store.go", "util.go"} {
 			src, err := os.ReadFile(filepath.Join(repo, "store", "file", fn))
@@ -127,7 +127,11 @@ func overlayFor(repo, verif string, dirs []string, genDir string) (map[string]st
 			}
 			os.MkdirAll(filepath.Join(genDir, "file_vfs"), 0o755)
 			gen := filepath.Join(genDir, "file_vfs", fn)
-			if err := os.WriteFile(gen, []byte(repl.Replace(string(src))), 0o644); err == nil {
+			out := repl.Replace(string(src))
+			if !strings.Contains(out, "filepath.") {
+				out = strings.Replace(out, "\t\"path/filepath\"\n", "\t_ \"path/filepath\"\n", 1)
+			}
+			if err := os.WriteFile(gen, []byte(out), 0o644); err == nil {
 				ov[filepath.Join(repo, "store", "file", fn)] = gen
 			}
 		}
